@@ -7,7 +7,7 @@ R04.h  done / event / notify_shell / request_from_shell / stream_from_shell prod
        of them gives to Command::new (or its builder) makes exactly the one context call the primitive stands for, on every path,
        with the primitive's own argument.
 """
-from rules.facts import norm, path_matches, origins, flows_to, call_matches, last_seg
+from rules.facts import norm, path_matches, origins, flows_to, call_matches, last_seg, Origin
 
 CTX = 'crux_core::command::context::CommandContext'
 CTX_CALLS = {
@@ -39,11 +39,41 @@ def parent_of(core, g):
     return core.by_exact(p) if p != g.path else None
 
 
-def trace_to_root(core, g, operand, root, _depth=0):
-    """origins of `operand` of closure body g expressed in the enclosing function `root` (captures followed upwards)"""
+def local_helpers(core, f, depth=2):
+    """crate-local plain functions f calls (transitively, small depth), with the call sites: [(helper, caller, bb, term)]"""
+    by_npath = {}
+    for g in core.built:
+        if g.kind in ('Fn', 'AssocFn'):
+            by_npath.setdefault(g.npath, []).append(g)
+    out = []
+    seen = {f.path}
+    frontier = [f] + core.closures_of(f)
+    for _ in range(depth):
+        nxt = []
+        for h in frontier:
+            for bb, t in h.calls():
+                for g in by_npath.get(norm(t.get('resolved') or t.get('callee') or ''), []):
+                    if g.assoc.get('trait'):
+                        continue
+                    out.append((g, h, bb, t))
+                    if g.path not in seen:
+                        seen.add(g.path)
+                        nxt += [g] + core.closures_of(g)
+        frontier = nxt
+    return out
+
+
+def trace_to_root(core, g, operand, root, _depth=0, _helpers=None):
+    """origins of `operand` of body g expressed in the enclosing function `root`: closure captures are followed up into the parent,
+    parameters of a crate-local helper are followed into the argument at its call site(s)"""
+    if _helpers is None:
+        _helpers = local_helpers(core, root)
     out = []
     for o in origins(g, operand):
-        if g.path != root.path and o.kind == 'arg' and o.n == 1 and o.suffix and o.suffix[0].startswith('.^') and _depth < 6:
+        if g.path == root.path or _depth >= 8:
+            out.append((g, o))
+            continue
+        if g.kind == 'Closure' and o.kind == 'arg' and o.n == 1 and o.suffix and o.suffix[0].startswith('.^'):
             name = o.suffix[0][2:]
             parent = parent_of(core, g)
             found = False
@@ -52,12 +82,25 @@ def trace_to_root(core, g, operand, root, _depth=0):
                     rv = s['rv']
                     if rv['k'] == 'agg' and rv.get('def') == g.path and name in (rv.get('fields') or []):
                         found = True
-                        out += trace_to_root(core, parent, rv['ops'][rv['fields'].index(name)], root, _depth + 1)
+                        for h, x in trace_to_root(core, parent, rv['ops'][rv['fields'].index(name)], root, _depth + 1, _helpers):
+                            x2 = Origin(x.kind, **{k: v for k, v in x.__dict__.items() if k != 'kind'})
+                            x2.suffix = list(x.suffix or []) + list(o.suffix[1:])
+                            out.append((h, x2))
             if not found:
-                out.append(o)
+                out.append((g, o))
+        elif g.kind != 'Closure' and o.kind == 'arg':
+            sites = [(caller, bb, t) for (hp, caller, bb, t) in _helpers if hp.path == g.path]
+            if not sites:
+                out.append((g, o))
+            for caller, bb, t in sites:
+                if o.n - 1 < len(t['args']):
+                    for h, x in trace_to_root(core, caller, t['args'][o.n - 1], root, _depth + 1, _helpers):
+                        x2 = Origin(x.kind, **{k: v for k, v in x.__dict__.items() if k != 'kind'})
+                        x2.suffix = list(x.suffix or []) + list(o.suffix or [])
+                        out.append((h, x2))
         else:
             out.append((g, o))
-    return [x if isinstance(x, tuple) else (g, x) for x in out]
+    return out
 
 
 def param_index(f, name):
@@ -133,6 +176,9 @@ def check_request_typestate(rep, rid, core):
             rep.missing(rid, 'CommandContext::%s' % name)
             continue
         bodies = [f] + core.closures_of(f)
+        for hp, caller, bb_, t_ in local_helpers(core, f):
+            if hp.npath.startswith('crux_core::command::context::') and hp not in bodies:
+                bodies += [hp] + [h for h in core.closures_of(hp) if h not in bodies]
         sends = [(g, bb, t) for g in bodies for bb, t in g.calls(*CHANNEL_SENDS)]
         key = 'ctx.%s|one-send' % name
         if len(sends) != 1:
@@ -171,8 +217,19 @@ def check_request_typestate(rep, rid, core):
         ok = len(made) == 1 and g.path != f.path
         if ok:
             first = origins(f, made[0][1]['args'][0], extra_identity=[('alloc::boxed::Box::new', 0)], through_casts=True)
-            ok = bool(first) and all(o.kind == 'agg' and o.stmt['rv'].get('def') == g.path for o in first) and \
-                not list(f.calls('core::ops::function::FnOnce::call_once'))
+
+            def is_the_closure(h, o, depth=0):
+                if o.kind == 'agg' and o.stmt['rv'].get('def') == g.path:
+                    return True
+                if o.kind == 'call' and depth < 2:
+                    # a crate-local helper that returns the closure
+                    for hp in [x for x in bodies if x.kind != 'Closure' and x.npath == norm(o.term.get('resolved') or o.term.get('callee') or '')]:
+                        ret_ = origins(hp, {'l': 0, 'p': []}, extra_identity=[('alloc::boxed::Box::new', 0)], through_casts=True)
+                        if ret_ and all(is_the_closure(hp, y, depth + 1) for y in ret_):
+                            return True
+                return False
+            ok = bool(first) and all(is_the_closure(f, o) for o in first) and \
+                not any(list(h.calls('core::ops::function::FnOnce::call_once')) for h in bodies if h.kind != 'Closure')
             ret = origins(f, {'l': 0, 'p': []})
             ok = ok and bool(ret) and all(o.kind == 'call' and o.bb == made[0][0] for o in ret)
         rep.expect(rid, ok, 'ctx.%s|deferred-to-first-poll' % name, 'the sending closure is handed to the returned future, not run at the call',
@@ -204,24 +261,63 @@ def check_request_typestate(rep, rid, core):
         r2 = f.reachable([arm['Sent']])
         rep.expect(rid, not any(x in r2 for x in fn_calls), 'ShellStream::poll_next|sent-never-resends',
                    'the Sent arm cannot reach the sending closure', 'command ShellStream::poll_next can send again from the Sent state')
-        # Sent arm returns the receiver's poll unchanged
-        delegated = [bb for bb, t in f.calls('futures_core::stream::Stream::poll_next')
-                     if bb in r2 and any('as Sent' in ' '.join(o.suffix) or any('as Sent' in p for p in (o.stmt['rv']['a']['p'] if o.kind == 'rvalue' and o.stmt['rv']['k'] == 'ref' else []))
-                                         for o in origins(f, t['args'][0], extra_identity=[('core::pin::Pin::new_unchecked', 0), ('core::pin::Pin::new', 0)]))]
-        rep.expect(rid, bool(delegated) and all(not any(x in f.reachable([arm['Sent']], removed_blocks=delegated) for x in rets) for _ in [0]),
-                   'ShellStream::poll_next|sent-delegates', 'the Sent arm returns through a poll of its receiver',
-                   'command ShellStream::poll_next: the Sent arm can return without polling its receiver')
+        # Sent arm returns the receiver's poll unchanged: every definition of the return value reachable from the Sent arm is a
+        # poll-like call on (a borrow of) the Sent payload
+        def from_sent(op):
+            for o in origins(f, op, extra_identity=[('core::pin::Pin::new_unchecked', 0), ('core::pin::Pin::new', 0), ('core::pin::Pin::as_mut', 0),
+                                                    ('core::ops::deref::DerefMut::deref_mut', 0)]):
+                toks = list(o.suffix or [])
+                if o.kind == 'rvalue' and o.stmt['rv']['k'] == 'ref':
+                    toks += list(o.stmt['rv']['a'].get('p') or [])
+                if any('as Sent' in p_ for p_ in toks):
+                    return True
+            return False
+        defs = []
+        for bb in r2:
+            t = f.blocks[bb]['t']
+            if t['k'] == 'call' and t['d']['l'] == 0 and not t['d']['p']:
+                defs.append((bb, last_seg(t.get('callee') or '').startswith('poll') and bool(t['args']) and from_sent(t['args'][0])))
+            for st_ in f.blocks[bb]['st']:
+                if st_['k'] == 'assign' and st_['d']['l'] == 0 and not st_['d']['p']:
+                    src = origins(f, st_['rv']['a']) if st_['rv']['k'] == 'use' else []
+                    good_ = bool(src) and all(o.kind == 'call' and last_seg(o.term.get('callee') or '').startswith('poll') and from_sent(o.term['args'][0]) for o in src)
+                    defs.append((bb, good_))
+        own = [d for d in defs if d[0] not in f.reachable([arm['ReadyToSend']]) or d[1]]
+        rep.expect(rid, bool(own) and all(g_ for _, g_ in own), 'ShellStream::poll_next|sent-delegates', 'the Sent arm returns the poll of its receiver',
+                   'command ShellStream::poll_next: the Sent arm can return something other than the poll of its receiver')
     # ---- ShellStream::send (or wherever the state changes): the new state keeps the original receiver and the closure is called
     host = send if send is not None else f
-    aggs = [(bb, s) for bb, i, s in host.stmts('assign') if s['rv']['k'] == 'agg' and s['rv'].get('ak') == 'adt' and
-            path_matches(s['rv'].get('adt'), SS) and s['rv'].get('variant') == 'Sent']
-    stores = [(bb, s) for bb, i, s in host.stmts('assign') if s['d']['p'] == ['*'] and s['d']['l'] == 1]
-    keep = False
-    for bb, s in stores:
-        for o in origins(host, s['rv']['a']) if s['rv']['k'] == 'use' else []:
-            if o.kind == 'agg' and o.stmt['rv'].get('variant') == 'Sent':
-                rcv = origins(host, o.stmt['rv']['ops'][0])
-                keep = bool(rcv) and all(any('as ReadyToSend' in p for p in x.suffix) for x in rcv)
+    # every write of a ShellStream state into *self: plain stores through a reference and mem::replace / swap / Pin::set
+    state_writes = []  # (block, is_good)
+    def classify(value_operand):
+        src = origins(host, value_operand)
+        aggs = [o for o in src if o.kind == 'agg' and path_matches(o.stmt['rv'].get('adt'), SS)]
+        if not aggs or len(aggs) != len(src):
+            return None if not aggs else False
+        good = True
+        for o in aggs:
+            if o.stmt['rv'].get('variant') != 'Sent':
+                good = False
+                continue
+            rcv = origins(host, o.stmt['rv']['ops'][0])
+            if not rcv or not all(any('as ReadyToSend' in p_ for p_ in x.suffix) for x in rcv):
+                good = False
+        return good
+    for bb, i, s_ in host.stmts('assign'):
+        if s_['d']['p'] and s_['d']['p'][-1] == '*' and s_['rv']['k'] == 'use':
+            g_ = classify(s_['rv']['a'])
+            if g_ is not None:
+                state_writes.append((bb, g_))
+    for bb, t in host.calls('core::mem::replace', 'core::mem::swap', 'core::pin::Pin::set'):
+        if len(t['args']) >= 2:
+            g_ = classify(t['args'][1])
+            if g_ is not None:
+                state_writes.append((bb, g_))
+    good = [bb for bb, g_ in state_writes if g_]
+    other = [bb for bb, g_ in state_writes if not g_]
+    rets_h = host.return_blocks()
+    keep = bool(good) and not any(r_ in host.reachable([0], removed_blocks=good) for r_ in rets_h) and \
+        not any(o_ in host.reachable_after(gb) for gb in good for o_ in other if o_ != gb)
     calls = [(bb, t) for bb, t in host.calls('core::ops::function::FnOnce::call_once')]
     called = len(calls) == 1 and must_pass(host, calls[0][0]) and \
         all(any('as ReadyToSend' in p for p in x.suffix) for x in origins(host, calls[0][1]['args'][0]))
